@@ -16,6 +16,7 @@ row id), `dflt`; `Selected d sel k c` — the key and certificate that signing a
 -/
 namespace Ndn.C15
 open Ndn Ndn.Sql Ndn.Keychain
+set_option linter.unusedSimpArgs false
 
 /-! ## the generated tables -/
 
@@ -229,5 +230,307 @@ theorem views_agree (ops : List (Op × Option Nat)) :
     obtain ⟨r2, ⟨hr2, ho2⟩, hn2⟩ := h2
     have := eq_of_name_eq h.certs.names hr1 hr2 (hn1.trans hn2.symm)
     subst this; exact ho1.symm.trans ho2
+
+/-! ## signer_right_key -/
+
+/-- specification: the key and the certificate that signing arguments designate in a database:
+    * `cert c`: certificate `c` and the key it is named after;
+    * `key k`: key `k` of the identity it is named after, and that key's default certificate;
+    * `identity n`: identity `n`, its default key, that key's default certificate;
+    * nothing: the same for the default identity. -/
+inductive Selected (d : Db) : Sel → KeyName → CertName → Prop
+  | cert (c : CertName) : Selected d (.cert c) c.key c
+  | key (ir : Row Nat) (kr : Row KeyName) (cr : Row CertName) :
+      ir ∈ d.ids.rows → kr ∈ d.keys.rows → kr.owner = ir.rid → ir.name = kr.name.idn →
+      cr ∈ d.certs.rows → cr.owner = kr.rid → cr.dflt = true → Selected d (.key kr.name) kr.name cr.name
+  | ident (ir : Row Nat) (kr : Row KeyName) (cr : Row CertName) :
+      ir ∈ d.ids.rows → kr ∈ d.keys.rows → kr.owner = ir.rid → kr.dflt = true →
+      cr ∈ d.certs.rows → cr.owner = kr.rid → cr.dflt = true → Selected d (.ident ir.name) kr.name cr.name
+  | dflt (ir : Row Nat) (kr : Row KeyName) (cr : Row CertName) :
+      ir ∈ d.ids.rows → ir.dflt = true → kr ∈ d.keys.rows → kr.owner = ir.rid → kr.dflt = true →
+      cr ∈ d.certs.rows → cr.owner = kr.rid → cr.dflt = true → Selected d .dflt kr.name cr.name
+
+theorem find_spec {α : Type} {p : α → Bool} {l : List α} {a : α} (h : l.find? p = some a) : a ∈ l ∧ p a = true :=
+  ⟨List.mem_of_find?_eq_some h, List.find?_some h⟩
+
+theorem selected_of_resolve {d : Db} {sel : Sel} {k : KeyName} {c : CertName}
+    (h : resolve d sel = some (k, c)) : Selected d sel k c := by
+  cases sel with
+  | cert c' =>
+    simp only [resolve, Option.some.injEq, Prod.mk.injEq] at h
+    obtain ⟨rfl, rfl⟩ := h
+    exact .cert _
+  | key k' =>
+    simp only [resolve, Option.bind_eq_bind, Option.bind_eq_some_iff, Option.pure_def, Option.some.injEq,
+      Prod.mk.injEq] at h
+    obtain ⟨ir, hi, kr, hk, cr, hc, rfl, rfl⟩ := h
+    obtain ⟨hi1, hi2⟩ := find_spec hi
+    obtain ⟨hk1, hk2⟩ := find_spec hk
+    obtain ⟨hc1, hc2⟩ := find_spec hc
+    simp only [Bool.and_eq_true, decide_eq_true_eq, beq_iff_eq] at hi2 hk2 hc2
+    obtain ⟨rfl, hko⟩ := hk2
+    exact .key ir kr cr hi1 hk1 hko hi2 hc1 hc2.2 hc2.1
+  | ident n =>
+    simp only [resolve, Option.bind_eq_bind, Option.bind_eq_some_iff, Option.pure_def, Option.some.injEq,
+      Prod.mk.injEq] at h
+    obtain ⟨ir, hi, kr, hk, cr, hc, rfl, rfl⟩ := h
+    obtain ⟨hi1, hi2⟩ := find_spec hi
+    obtain ⟨hk1, hk2⟩ := find_spec hk
+    obtain ⟨hc1, hc2⟩ := find_spec hc
+    simp only [Bool.and_eq_true, decide_eq_true_eq, beq_iff_eq] at hi2 hk2 hc2
+    subst hi2
+    exact .ident ir kr cr hi1 hk1 hk2.2 hk2.1 hc1 hc2.2 hc2.1
+  | dflt =>
+    simp only [resolve, Option.bind_eq_bind, Option.bind_eq_some_iff, Option.pure_def, Option.some.injEq,
+      Prod.mk.injEq] at h
+    obtain ⟨ir, hi, kr, hk, cr, hc, rfl, rfl⟩ := h
+    obtain ⟨hi1, hi2⟩ := find_spec hi
+    obtain ⟨hk1, hk2⟩ := find_spec hk
+    obtain ⟨hc1, hc2⟩ := find_spec hc
+    simp only [Bool.and_eq_true, decide_eq_true_eq, beq_iff_eq] at hi2 hk2 hc2
+    exact .dflt ir kr cr hi1 hi2 hk1 hk2.2 hk2.1 hc1 hc2.2 hc2.1
+
+/-- what a `get_signer` step that returns a signer returned -/
+theorem getSigner_step {J : List KeyName → Nat → Prop} {s s' : Sys} (hs : SysInv J s) {sel : Sel} {loc : Option Nat}
+    {f : Option Nat} {sg : Signer} (h : step s (.getSigner sel loc, f) = (.ok (some sg), s')) :
+    ∃ k c, resolve s.cur sel = some (k, c) ∧ sg = ⟨k, locOf loc c⟩ ∧ k ∈ s.tpm := by
+  have hsp := getSigner_spec (J := J) sel loc s { s with fault := f } ⟨SysInv.fi s f hs, rfl, rfl, rfl⟩
+  simp only [step, Op.prog, run_bind] at h
+  rcases hm : (Keychain.getSigner sel loc).run { s with fault := f } with ⟨e | sg1, s1⟩ <;> simp only [hm] at h hsp
+  · simp at h
+  · simp only [run_pure, Prod.mk.injEq, Except.ok.injEq, Option.some.injEq] at h
+    rw [← h.1]; exact hsp
+
+/-- **signer_right_key.** After any history (with any injected storage failures), whenever `get_signer`
+    returns a signer - freshly made or from the cache - it signs with the private key stored under the name
+    of the selected key, and its key locator is the caller's explicit one or else the selected (default)
+    certificate's name. -/
+theorem signer_right_key (ops : List (Op × Option Nat)) (sel : Sel) (loc : Option Nat) (f : Option Nat)
+    (sg : Signer) (s' : Sys) (h : step (run Sys.init ops) (.getSigner sel loc, f) = (.ok (some sg), s')) :
+    ∃ k c, Selected (run Sys.init ops).cur sel k c ∧ sg.key = k ∧ sg.loc = locOf loc c ∧
+      k ∈ (run Sys.init ops).tpm := by
+  obtain ⟨k, c, hr, rfl, ht⟩ := getSigner_step (sysInv_run ops) h
+  exact ⟨k, c, selected_of_resolve hr, rfl, rfl, ht⟩
+
+/-! ## delete_cascades -/
+
+theorem delKey_step {s s' : Sys} {k : KeyName} {f : Option Nat} {r : Option Signer}
+    (h : step s (.delKey k, f) = (.ok r, s')) : DelKeyPost k s s' := by
+  have hsp := delKey_spec k s { s with fault := f } ⟨rfl, rfl, rfl⟩
+  simp only [step, Op.prog, run_bind] at h
+  rcases hm : (Keychain.delKey k).run { s with fault := f } with ⟨e | u, s1⟩ <;> simp only [hm] at h hsp
+  · simp at h
+  · simp only [run_pure, Prod.mk.injEq] at h
+    rw [← h.2]
+    exact ⟨hsp.found, hsp.keys, hsp.ids, hsp.tpm, hsp.kid, hsp.committed, hsp.cache⟩
+
+theorem delIdentity_step {s s' : Sys} {n : Nat} {f : Option Nat} {r : Option Signer} (hn : NamesU s.cur.keys.rows)
+    (h : step s (.delIdentity n, f) = (.ok r, s')) : DelIdPost n s s' := by
+  have hsp := delIdentity_spec n s hn { s with fault := f } ⟨rfl, rfl, rfl⟩
+  simp only [step, Op.prog, run_bind] at h
+  rcases hm : (Keychain.delIdentity n).run { s with fault := f } with ⟨e | u, s1⟩ <;> simp only [hm] at h hsp
+  · simp at h
+  · simp only [run_pure, Prod.mk.injEq] at h
+    rw [← h.2]
+    exact ⟨hsp.found, hsp.idsGone, hsp.committed, hsp.cache⟩
+
+/-- **delete_cascades (key).** After any history, a `del_key k` that returns normally (whatever failure was
+    scheduled, it was not reached) leaves: no key named `k`; no certificate below the key row that carried
+    that name; no private key for `k`; everything committed; other keys and all identities untouched. -/
+theorem del_key_cascades (ops : List (Op × Option Nat)) (k : KeyName) (f : Option Nat) (r : Option Signer)
+    (s' : Sys) (h : step (run Sys.init ops) (.delKey k, f) = (.ok r, s')) :
+    let s := run Sys.init ops
+    (∀ x ∈ s'.cur.keys.rows, x.name ≠ k) ∧
+    (∀ kr ∈ s.cur.keys.rows, kr.name = k → ∀ c ∈ s'.cur.certs.rows, c.owner ≠ kr.rid) ∧
+    k ∉ s'.tpm ∧ s'.com = s'.cur ∧
+    (∀ x ∈ s.cur.keys.rows, x.name ≠ k → x ∈ s'.cur.keys.rows) ∧ s'.cur.ids = s.cur.ids := by
+  intro s
+  have hp := delKey_step h
+  have hi := (sysInv_run ops).cur
+  obtain ⟨ir, kr0, _, hkr0, hcerts⟩ := hp.found
+  obtain ⟨hkr0m, hkr0p⟩ := find_spec hkr0
+  simp only [Bool.and_eq_true, decide_eq_true_eq, beq_iff_eq] at hkr0p
+  refine ⟨fun x hx => ?_, fun kr hkr hk c hc => ?_, ?_, hp.committed, fun x hx hne => ?_, hp.ids⟩
+  · rw [hp.keys, List.mem_filter] at hx
+    simpa using hx.2
+  · have : kr = kr0 := eq_of_name_eq hi.keys.names hkr hkr0m (hk.trans hkr0p.1.symm)
+    subst this
+    rw [hcerts, List.mem_filter] at hc
+    simpa using hc.2
+  · rw [hp.tpm, List.mem_filter]
+    simp
+  · rw [hp.keys, List.mem_filter]
+    exact ⟨hx, by simp [hne]⟩
+
+/-- **delete_cascades (identity).** After any history, a `del_identity n` that returns normally leaves: no
+    identity named `n`; for every key row that was below the identity row carrying that name: no key of that
+    name, no private key for it, no certificate below it; everything committed. -/
+theorem del_identity_cascades (ops : List (Op × Option Nat)) (n : Nat) (f : Option Nat) (r : Option Signer)
+    (s' : Sys) (h : step (run Sys.init ops) (.delIdentity n, f) = (.ok r, s')) :
+    let s := run Sys.init ops
+    (∀ x ∈ s'.cur.ids.rows, x.name ≠ n) ∧
+    (∀ ir ∈ s.cur.ids.rows, ir.name = n → ∀ kr ∈ s.cur.keys.rows, kr.owner = ir.rid →
+      (∀ x ∈ s'.cur.keys.rows, x.name ≠ kr.name) ∧ kr.name ∉ s'.tpm ∧
+      ∀ c ∈ s'.cur.certs.rows, c.owner ≠ kr.rid) ∧
+    s'.com = s'.cur := by
+  intro s
+  have hi := (sysInv_run ops).cur
+  have hp := delIdentity_step hi.keys.names h
+  obtain ⟨ir0, hir0, hkeys, hcerts, htpm, _⟩ := hp.found
+  obtain ⟨hir0m, hir0p⟩ := find_spec hir0
+  simp only [decide_eq_true_eq] at hir0p
+  refine ⟨fun x hx => ?_, fun ir hir hname kr hkr hown => ?_, hp.committed⟩
+  · rw [hp.idsGone, List.mem_filter] at hx
+    simpa using hx.2
+  · have : ir = ir0 := eq_of_name_eq hi.ids.names hir hir0m (hname.trans hir0p.symm)
+    subst this
+    have hmem : kr.name ∈ keyIter s.cur ir.rid :=
+      List.mem_map.mpr ⟨kr, List.mem_filter.mpr ⟨hkr, by simp [hown]⟩, rfl⟩
+    refine ⟨fun x hx => ?_, ?_, fun c hc => (hcerts c hc).2 kr hkr hmem⟩
+    · rw [hkeys, List.mem_filter] at hx
+      intro e
+      rw [e] at hx
+      have := hx.2
+      simp only [Bool.not_eq_true', decide_eq_false_iff_not] at this
+      exact this hmem
+    · rw [htpm, List.mem_filter]
+      intro hh
+      have := hh.2
+      simp only [Bool.not_eq_true', decide_eq_false_iff_not] at this
+      exact this hmem
+
+/-! ## no_signer_for_deleted -/
+
+/-- key `k` has no private key and its id will never be generated again -/
+def KeyGone (k : KeyName) (t : List KeyName) (n : Nat) : Prop := k ∉ t ∧ k.kid < n
+
+theorem keyGone_ok (k : KeyName) : JOk (KeyGone k) := by
+  refine ⟨fun t n m h => ⟨?_, by have := h.2; omega⟩, fun t n p h => ⟨fun hm => h.1 (List.mem_filter.mp hm).1, h.2⟩⟩
+  simp only [List.mem_append, List.mem_singleton, not_or]
+  refine ⟨h.1, fun e => ?_⟩
+  have := h.2
+  rw [e] at this
+  simp at this
+
+/-- **no_signer_for_deleted.** Once `del_key k` has returned normally, no later `get_signer` - whatever the
+    history in between, with any injected storage failures, with whatever arguments, cached or not - returns a
+    signer that signs with `k`'s private key. -/
+theorem no_signer_for_deleted (ops1 ops2 : List (Op × Option Nat)) (k : KeyName) (f f' : Option Nat)
+    (r : Option Signer) (s2 s' : Sys) (sel : Sel) (loc : Option Nat) (sg : Signer)
+    (hdel : step (run Sys.init ops1) (.delKey k, f) = (.ok r, s2))
+    (hget : step (run s2 ops2) (.getSigner sel loc, f') = (.ok (some sg), s')) : sg.key ≠ k := by
+  have h1 := sysInv_run ops1
+  have hp := delKey_step hdel
+  have h2 : Inv s2 := by
+    have := step_of_pres SysInv.fi (pres_prog JOk.trivial) _ (Op.delKey k, f) h1
+    rw [hdel] at this; exact this
+  obtain ⟨ir, kr0, _, hkr0, _⟩ := hp.found
+  obtain ⟨hkr0m, hkr0p⟩ := find_spec hkr0
+  simp only [Bool.and_eq_true, decide_eq_true_eq, beq_iff_eq] at hkr0p
+  have hgone : KeyGone k s2.tpm s2.nextKid := by
+    refine ⟨by rw [hp.tpm, List.mem_filter]; simp, ?_⟩
+    rw [hp.kid, ← hkr0p.1]
+    exact h1.keyKids.1 kr0 hkr0m
+  have h3 : SysInv (KeyGone k) (run s2 ops2) :=
+    run_of_pres SysInv.fi (pres_prog (keyGone_ok k)) _ ops2 (h2.withJ hgone)
+  obtain ⟨k', c, _, rfl, hk'⟩ := getSigner_step h3 hget
+  intro e
+  exact h3.extra.1 (by rw [← e]; exact hk')
+
+/-! ## reopen_same -/
+
+/-- a key-generating operation answered sqlite's IntegrityError: the freshly generated random key id, or the
+    timestamped name of its self-signed certificate, was already in the database.  (The only way a
+    failure-free operation can end with uncommitted work.) -/
+def KeyGenClash (s : Sys) (op : Op) : Prop :=
+  op.keyGen = true ∧ (step s (op, none)).1 = .error .integrityError
+
+/-- a history without injected failures in which that never happened -/
+def NoClash : Sys → List Op → Prop
+  | _, [] => True
+  | s, op :: r => ¬ KeyGenClash s op ∧ NoClash (step s (op, none)).2 r
+
+theorem clean_step (s : Sys) (op : Op) (hc : s.cur = s.com) (hn : ¬ KeyGenClash s op) :
+    (step s (op, none)).2.cur = (step s (op, none)).2.com := by
+  have h := nfc_prog op { s with fault := none } ⟨rfl, hc⟩
+  unfold KeyGenClash at hn
+  unfold step at hn ⊢
+  rcases hm : (Op.prog op).run { s with fault := none } with ⟨e | r, s1⟩ <;> simp only [hm] at h hn ⊢
+  · rcases h with ⟨h1, h2⟩ | h
+    · exact absurd ⟨h1, by rw [h2]⟩ hn
+    · exact h.2
+  · exact h.2
+
+theorem clean_run (ops : List Op) : ∀ s : Sys, s.cur = s.com → NoClash s ops →
+    (run s (ops.map fun o => (o, none))).cur = (run s (ops.map fun o => (o, none))).com := by
+  induction ops with
+  | nil => intro s h _; exact h
+  | cons o r ih =>
+    intro s hc hn
+    exact ih _ (clean_step s o hc hn.1) hn.2
+
+/-- **reopen_same.** After any history without injected storage failures (in which key generation never hit
+    an IntegrityError) nothing is uncommitted, so closing and reopening the store changes neither the
+    database the connection sees nor the private-key store; only the signer cache starts empty. -/
+theorem reopen_same (ops : List Op) (h : NoClash Sys.init ops) :
+    let s := run Sys.init (ops.map fun o => (o, none))
+    let s' := (step s (.reopen, none)).2
+    s.cur = s.com ∧ s'.cur = s.cur ∧ s'.com = s.com ∧ s'.tpm = s.tpm ∧ s'.nextKid = s.nextKid ∧ s'.cache = [] := by
+  intro s s'
+  have hc : s.cur = s.com := clean_run ops Sys.init rfl h
+  refine ⟨hc, ?_, rfl, rfl, rfl, rfl⟩
+  show s.com = s.cur
+  exact hc.symm
+
+/-! ## non-vacuity: the hypotheses are met by concrete histories (evaluated by the kernel) -/
+
+deriving instance DecidableEq for Except
+
+/-- two identities, the second identity has two keys: exactly one default per scope -/
+example :
+    let s := run Sys.init [(.touchIdentity 1, none), (.touchIdentity 2, none), (.newKey 2 false, none)]
+    s.cur.ids.rows.map (fun r => (r.name, r.dflt)) = [(1, true), (2, false)] ∧
+    s.cur.keys.rows.map (fun r => (r.name, r.owner, r.dflt)) =
+      [(⟨1, 0⟩, 1, true), (⟨2, 1⟩, 2, true), (⟨2, 2⟩, 2, false)] := by decide
+
+/-- `default_exists`: deleting the default identity leaves a populated scope without default, recorded in
+    `lost`; a later insert gives it a default again and clears the record -/
+example :
+    let s := run Sys.init [(.touchIdentity 1, none), (.touchIdentity 2, none), (.delIdentity 1, none)]
+    hasDefault false 0 s.cur.ids.rows = false ∧ s.cur.ids.lost = [0] ∧
+    (run s [(.newIdentity 3, none)]).cur.ids.lost = [] ∧
+    (run s [(.newIdentity 3, none)]).cur.ids.rows.map (fun r => (r.name, r.dflt)) = [(2, false), (3, true)] := by
+  decide
+
+/-- `signer_right_key`: the hypothesis holds (explicit locator, non-default key; and via the cache) -/
+example :
+    let s := run Sys.init [(.touchIdentity 1, none), (.newKey 1 false, none)]
+    (step s (.getSigner (.key ⟨1, 1⟩) (some 5), none)).1 = .ok (some ⟨⟨1, 1⟩, .lit 5⟩) ∧
+    (step (step s (.getSigner (.key ⟨1, 0⟩) (some 5), none)).2 (.getSigner (.key ⟨1, 1⟩) (some 5), none)).1
+      = .ok (some ⟨⟨1, 1⟩, .lit 5⟩) ∧
+    (step s (.getSigner .dflt none, none)).1 = .ok (some ⟨⟨1, 0⟩, .cert ⟨⟨1, 0⟩, 0⟩⟩) := by decide
+
+/-- `del_key_cascades` / `del_identity_cascades` / `no_signer_for_deleted`: the deletes return normally, and a
+    signer is still obtainable for the surviving key -/
+example :
+    let s := run Sys.init [(.touchIdentity 1, none), (.newKey 1 false, none), (.importCert ⟨1, 0⟩ ⟨⟨1, 0⟩, 2⟩, none)]
+    (step s (.delKey ⟨1, 0⟩, none)).1 = .ok none ∧
+    (step s (.delIdentity 1, none)).1 = .ok none ∧
+    (step (step s (.delKey ⟨1, 0⟩, none)).2 (.getSigner (.key ⟨1, 1⟩) none, none)).1
+      = .ok (some ⟨⟨1, 1⟩, .cert ⟨⟨1, 1⟩, 0⟩⟩) ∧
+    (step (step s (.delKey ⟨1, 0⟩, none)).2 (.getSigner (.ident 1) none, none)).1 = .error .keyError ∧
+    (step (step s (.delKey ⟨1, 0⟩, none)).2 (.getSigner (.cert ⟨⟨1, 0⟩, 0⟩) none, none)).1 = .error .keyError := by
+  decide
+
+/-- a storage failure inside `del_key` (after the certificates were deleted) leaves the key without
+    certificates and uncommitted work - the invariants above still hold there -/
+example :
+    let s := (step (run Sys.init [(.touchIdentity 1, none)]) (.delKey ⟨1, 0⟩, some 1)).2
+    s.cur.certs.rows.length = 0 ∧ s.cur.keys.rows.length = 1 ∧ s.com.certs.rows.length = 1 := by decide
+
+/-- `reopen_same`: a history satisfying `NoClash` -/
+example : NoClash Sys.init [.touchIdentity 1, .newKey 1 false, .importCert ⟨1, 0⟩ ⟨⟨1, 0⟩, 0⟩, .delKey ⟨1, 1⟩] := by
+  refine ⟨fun h => absurd h.2 (by decide), fun h => absurd h.2 (by decide), fun h => absurd h.1 (by decide),
+    fun h => absurd h.1 (by decide), trivial⟩
 
 end Ndn.C15
